@@ -5,6 +5,7 @@ import (
 	"context"
 	"fmt"
 	"io"
+	"sync/atomic"
 	"time"
 
 	"nhooyr.io/websocket"
@@ -351,7 +352,7 @@ func c10Blocked(r *fw.R, d c10Desc) {
 	if d.Blocked == "read-pong-blocked" {
 		lib2peer.Capacity = 40 // a Pong with a 100 byte payload does not fit: the reply blocks in the transport
 	}
-	c, _, peerEnd, err := libConn(d.Role, d.Params, 64, lib2peer, xport.Plan{})
+	c, libEnd, peerEnd, err := libConn(d.Role, d.Params, 64, lib2peer, xport.Plan{})
 	if err != nil {
 		r.Violate("C10/attach-failed", err.Error(), "")
 		return
@@ -359,6 +360,7 @@ func c10Blocked(r *fw.R, d c10Desc) {
 	defer c.CloseNow()
 	defer peerEnd.Close()
 	peer := newRawPeer(peerEnd, d.Role, d.Params, d.Seed)
+	var pingsSeen atomic.Int32
 	// the peer reads until told to stop (then the library's writes block)
 	stopReading := make(chan struct{})
 	peerReads := make(chan struct{})
@@ -375,6 +377,9 @@ func c10Blocked(r *fw.R, d c10Desc) {
 			peerEnd.SetReadDeadline(time.Now().Add(5 * time.Millisecond))
 			n, err := peerEnd.Read(buf)
 			for _, f := range ps.Feed(buf[:n]) {
+				if f.Op == wire.OpPing {
+					pingsSeen.Add(1)
+				}
 				if f.Op == wire.OpPing && d.Blocked != "ping" {
 					peer.Send(wire.Pong(f.Payload))
 				}
@@ -631,6 +636,50 @@ func c10Blocked(r *fw.R, d c10Desc) {
 			peer.Send(wire.Ping([]byte("p")))
 			time.Sleep(2 * time.Millisecond)
 		}
+	}
+	// ---- the call must be seen blocked where the scenario wants it (a read or write of the transport in
+	// progress and making no progress, or the Ping frame with the peer) before its context is ended: on a
+	// slow machine it may not have got there yet, and a context that ends before that decides nothing
+	blockedNow := func() bool {
+		switch d.Blocked {
+		case "ping":
+			return pingsSeen.Load() > 0
+		case "write", "writer-write", "writer-close", "writer-first-write-fills-buffer", "read-pong-blocked":
+			if libEnd.ActiveWrites() == 0 {
+				return false
+			}
+			n0 := libEnd.SentLen()
+			time.Sleep(3 * time.Millisecond)
+			return libEnd.ActiveWrites() > 0 && libEnd.SentLen() == n0
+		default:
+			return libEnd.ActiveReads() > 0
+		}
+	}
+	seenBlocked := false
+	for i := 0; i < 1500 && !seenBlocked; i++ {
+		if seenBlocked = blockedNow(); !seenBlocked {
+			time.Sleep(2 * time.Millisecond)
+		}
+	}
+	if dl, ok := ctx.Deadline(); !seenBlocked || ok && time.Until(dl) < 10*time.Millisecond || ctx.Err() != nil {
+		select {
+		case err := <-res:
+			if err == nil {
+				r.Violate("C10/blocked-call-returned-nil/"+d.Blocked, what+": the call returned nil although the peer never supplied what it waited for", "")
+				return
+			}
+			if d.How == "cancel" {
+				r.Violate("C10/call-did-not-block", fmt.Sprintf("%s: the call returned %v before its context ended although the peer withholds what it waits for", what, err), "")
+				return
+			}
+		default:
+		}
+		if !seenBlocked && d.How == "cancel" {
+			r.Inconclusivef("%s: the call neither returned nor was seen blocked in the transport within 3 s", what)
+			return
+		}
+		r.Count("deadlines_that_passed_before_the_call_blocked", 1)
+		return
 	}
 	// ---- end the context
 	tc := time.Now()
